@@ -275,10 +275,35 @@ fn fam_sizes(ctx: &CaseCtx, cov: &mut Cov) -> CaseOut {
     let mut rng = ctx.rng();
     let props = random_props_l2(&mut rng);
     let mut chunks = Vec::new();
-    match ctx.index % 5 {
+    match ctx.index % 6 {
+        5 => {
+            // compressed chunks whose unpacked size sits on the 16-bit boundary of the size
+            // field (the high bits live in the control byte), after another chunk
+            let first: Vec<Sym> = (0..rng.range(1, 40)).map(|_| Sym::Lit(rng.byte())).collect();
+            let base = first.len();
+            chunks.push(Chunk::Lzma { reset: 3, props, prog: first });
+            let target = *rng.pick(&[65535usize, 65536, 65537, 0x1FFFF, 0x20000, 0x20001, 0x10001]);
+            let mut prog: Vec<Sym> = Vec::new();
+            let mut produced = 0usize;
+            while produced < target {
+                let len = (target - produced).min(273);
+                if len < 2 {
+                    prog.push(Sym::Lit(rng.byte()));
+                    produced += 1;
+                } else {
+                    let dist = crate::gen::prog::pick_dist(&mut rng, (base + produced) as u64, u64::MAX) as u32;
+                    prog.push(Sym::Match { dist, len: len as u32 });
+                    produced += len;
+                }
+            }
+            let reset = *rng.pick(&[0u8, 0, 1, 2, 3]);
+            chunks.push(Chunk::Lzma { reset, props, prog });
+            chunks.push(Chunk::Lzma { reset: 0, props, prog: vec![Sym::Rep { idx: 0, len: 3 }, Sym::Lit(rng.byte())] });
+            cov.name(&format!("chunk_with_unpacked_size_{:#x}", target), 1);
+        }
         4 => {
             // the compressed-size field at its maximum (0xFFFF = 65536 bytes) and one below
-            let target = if (ctx.index / 5) % 2 == 0 { 65536 } else { 65535 };
+            let target = if (ctx.index / 6) % 2 == 0 { 65536 } else { 65535 };
             match program_with_packed_len(&mut rng, props, target) {
                 Some(prog) => {
                     chunks.push(Chunk::Lzma { reset: 3, props, prog });
@@ -313,7 +338,7 @@ fn fam_sizes(ctx: &CaseCtx, cov: &mut Cov) -> CaseOut {
             // exactly 2 MiB unpacked: 64 literals then long matches
             let mut prog: Vec<Sym> = (0..64).map(|_| Sym::Lit(rng.byte())).collect();
             let mut produced = 64usize;
-            let target = if ctx.index % 5 == 2 { 1usize << 21 } else { (1usize << 21) - rng.range(0, 300) as usize };
+            let target = if ctx.index % 6 == 2 { 1usize << 21 } else { (1usize << 21) - rng.range(0, 300) as usize };
             while produced < target {
                 let len = (target - produced).min(273);
                 if len < 2 {
@@ -395,7 +420,7 @@ pub fn monitor(tier: Tier) -> Monitor {
             "only sequences liblzma also accepts are generated (first chunk resets the dictionary, properties follow a dictionary reset, lc+lp<=4)".into(),
         ],
         families: vec![
-            Family { name: "sizes", count: tier.pick(20, 250), priority: true, enumerated: false, run: fam_sizes },
+            Family { name: "sizes", count: tier.pick(36, 360), priority: true, enumerated: false, run: fam_sizes },
             Family { name: "random", count: tier.pick(12_000, 600_000), priority: false, enumerated: false, run: fam_random },
             Family { name: "props", count: tier.pick(4_000, 150_000), priority: false, enumerated: false, run: fam_props },
             Family { name: "extremes", count: tier.pick(300, 8_000), priority: false, enumerated: false, run: fam_extremes },
